@@ -6,6 +6,6 @@ CONSTANTS
   WeakBudget = 1
 INVARIANTS
   FiresAtMostOnce NeverGarbage FiresAtQuiescence OwnershipOK ReleasedAtQuiescence RefCountSane NoRace
-  AbsNeverGarbage AbsAtMostOnce AbsEnd
+  AbsNeverGarbage AbsAtMostOnce AbsEnd AbsNoUseAfterReturn
 POSTCONDITION Accepted
 CHECK_DEADLOCK FALSE
